@@ -1,8 +1,10 @@
 //! Case generators for the pool properties.
+use alpenglow::consensus::Pool as _;
 use std::collections::{HashMap, HashSet};
 
 use crate::pool::{self, CK, Keys, Op, StepOut, VK};
 use crate::rng::Rng;
+fn cf_n(x: u64) -> String { crate::coqfmt::n(x) }
 use crate::{CaseSet, Stats, Tier};
 
 pub struct KeyRing {
@@ -504,7 +506,43 @@ pub fn gen_c08(seed: u64, tier: Tier) -> CaseSet {
               &format!("{}; plus late votes for arbitrary (possibly decided) slots; non-trivial as C07", WORLD_RULE))
 }
 
+/// A sender whose finalized slot lies beyond the receiver's admission window (finalized + 2 * SLOTS_PER_EPOCH):
+/// the bundle of the real pool is replayed into a fresh real pool (driven directly, no model evaluation: the
+/// model-level statement is C18_bundle_refused_beyond_window).
+fn far_ahead_bundle_probe() -> Option<String> {
+    let mut ring = KeyRing::new();
+    let stakes = [1u64, 1, 1];
+    let keys = ring.get(stakes.len());
+    let epoch = keys.epoch(&stakes, 0);
+    let mut r = pool::Runner::new(epoch);
+    r.slot_cap = 64;
+    let two_epochs = 2 * alpenglow::types::SLOTS_PER_EPOCH;
+    // finalize a slot just inside the fresh window, then one far beyond it
+    let ops = [
+        Op::Cert { slot: two_epochs - 1, kind: CK::FastFinal, hash: 7, s1: vec![0, 1, 2], s2: vec![] },
+        Op::Cert { slot: two_epochs + 4000, kind: CK::FastFinal, hash: 9, s1: vec![0, 1, 2], s2: vec![] },
+        Op::Standstill,
+    ];
+    let mut problem = None;
+    for op in &ops {
+        let o = r.step(keys, op);
+        if o.panicked { return Some("pool panicked in the far-ahead probe".into()); }
+        if let Some(b) = o.bundle_problem { problem = Some(b); }
+    }
+    if r.pool.finalized_slot().inner() != two_epochs + 4000 { return Some(format!("probe did not reach the far slot (finalized {})", r.pool.finalized_slot().inner())); }
+    problem
+}
+
 pub fn gen_c18(seed: u64, tier: Tier) -> CaseSet {
-    gen_world(seed, tier, 18, 0xC18, 300, 6000, false, true, true,
-              &format!("{}; standstill recovery is triggered after random prefixes and at the end (also on pools that finalized nothing beyond genesis); each bundle is validated element-wise with ValidatedCert/ValidatedVote::try_new and replayed into a second real pool; non-trivial as C07", WORLD_RULE))
+    let mut cs = gen_world(seed, tier, 18, 0xC18, 300, 6000, false, true, true,
+              &format!("{}; standstill recovery is triggered after random prefixes and at the end (also on pools that finalized nothing beyond genesis); each bundle is validated element-wise with ValidatedCert/ValidatedVote::try_new and replayed into a second real pool; plus one probe on the real pool with the sender's finalized slot beyond the receiver's two-epoch admission window; non-trivial as C07", WORLD_RULE));
+    // the probe gets a (trivial) case of its own so that its finding has its own replay file and description
+    let pcid = cs.cases.len() as u64;
+    cs.cases.push(format!("(PCase {} [1%N; 1%N; 1%N] 0%N [])", cf_n(pcid)));
+    cs.descr.push(format!("case {}: far-ahead standstill probe on the real pool: 3 equal validators; received FastFinal certificates for slot 2*SLOTS_PER_EPOCH-1 and 2*SLOTS_PER_EPOCH+4000 (both admitted, finalized slot = the latter); recover_from_standstill; the bundle is replayed into a fresh real pool", pcid));
+    match far_ahead_bundle_probe() {
+        Some(p) => { cs.stats.harness_findings.push((pcid, format!("pool:standstill-bundle:beyond-two-epoch-window:{}", p.split(" instead").next().unwrap_or("").replace(|c: char| c.is_ascii_digit(), "N")))); cs.stats.distribution.push(("far_ahead_bundle_probe".into(), p)); }
+        None => cs.stats.distribution.push(("far_ahead_bundle_probe".into(), "fresh pool reached the sender's finalized slot".into())),
+    }
+    cs
 }
